@@ -16,6 +16,9 @@ Workloads
   api      Frame objects -> ImageWriter.write_image (bulk of the images)
   sna2img  sna2img.main on bin/scr/sna files with -e macros, -f -r -i -n -p -o -S -s
   html     skool2html.main on generated skool/ref files with #UDG #UDGARRAY #SCR #FONT #FRAMES macros
+  frames   skool2html.main on generated skool files whose frames are modified by #COPY, #OVER and #PLOT before #FRAMES
+           renders them; every pixel decided by vk.ref.c15_overlay (pixel-level model of the three macros) + c15_render;
+           counting wrappers on graphics.overlay_udgs, Frame.copy and Frame.plot record what the real code was asked to do
 """
 import io
 import os
@@ -25,14 +28,17 @@ import traceback
 from vk import harness
 from vk.gens import c15_imggen as G
 from vk.gens import c15_macrogen as MG
+from vk.gens import c15_framegen as FG
 from vk.ref import c15_png, c15_render as R
+from vk.ref import c15_overlay as OV
 
 ID = 'C15'
 NEEDS_C = False
 LEVEL = 'exploration'
 EXHAUSTIVE = False
 TECHNIQUE = ('runtime monitoring: L1 structural PNG/APNG contract and encoder-selection counters wrapped around the real '
-             'PngWriter, generic-vs-specialised differential, and an independent rendering reference model deciding every pixel')
+             'PngWriter, generic-vs-specialised differential, and an independent rendering reference model deciding every pixel; counting '
+             'wrappers on overlay_udgs / Frame.copy / Frame.plot and a pixel-level reference model of #COPY, #OVER and #PLOT')
 LEVEL_TEXT = 'exploration: held on the images observed (counts, encoder slots and parameter histograms are in the evidence)'
 LEVEL_NOTE = ('random sampling of the tile-array/parameter space through three entry points; not exhaustive. The rendering model and the PNG '
               'decoder are written from the documentation/specifications and share no code with skoolkit.')
@@ -42,8 +48,13 @@ RULE = ('G-IMG: tile array 1..32 x 1..24 (tiny/medium/large/edge sizes) x attrib
         'origin) x flip 0..3 x rotate 0..3 x tindex 0..15 x alpha -1/0..255 x PNGAlpha x PNGEnableAnimation x compression level x default/custom '
         'colours x 1..4 frames with offsets; the same space driven through sna2img (-e macro, -f -r -i -n -p -o -S -s; bin/scr/sna input) and '
         'through skool2html (#UDG #UDGARRAY #SCR #FONT #FRAMES with positional/keyword parameters, address-range forms, attribute addresses, '
-        'mask specs). One case = one PNG file decoded and compared pixel by pixel (RGBA) with the model; non-trivial when the first frame shows '
-        '>= 2 distinct colours; distinct by hash of the complete case description')
+        'mask specs). Frames part: 2-4 scenarios per skool file, each 2-3 source frames (#UDG/#UDGARRAY/#SCR/#FONT with (*name), (img*name), (name*)) '
+        'x 2-6 operations from #COPY (portion, scale 1..4, mask 0..2, tindex, alpha, CROP given/inherited) / #OVER (tile x,y from fully left/above to '
+        'fully right/below incl. negative, xoffset/yoffset 0..7 and 8..19, rmode 0..3, foreground mask type 0/1/2 with mask bytes on all or no UDGs '
+        'incl. types changed by #COPY, attr/byte expressions over $b $f $m with + - * % & | ^ << >>) / bursts of #PLOT (value 0/1/2/omitted, '
+        'corners, lines, random pixels), each modified frame and every frame that took part (sources and foregrounds must stay unchanged) rendered '
+        'by #FRAMES (single, and multi-frame with offsets). One case = one PNG file decoded and compared pixel by pixel (RGBA) with the model; '
+        'non-trivial when the first frame shows >= 2 distinct colours; distinct by hash of the complete case description')
 ASSUMPTIONS = [
     'flip is applied before rotate (the order in which every macro lists them and sna2img lists -f/-r); rotate n = n quarter turns clockwise',
     'a tile without mask bytes in a masked frame is rendered unmasked; mask bytes are ignored when the mask type is 0',
@@ -58,6 +69,19 @@ ASSUMPTIONS = [
     'in a multi-frame image flashing cells are static and every later frame lies inside the first (documented requirement, guaranteed by the generator)',
     'frame delays are not checked (not part of the statement)',
     'with sna2img, a macro crop specification is combined with -f/-r only when these are 0 (the interplay is undocumented)',
+    '#OVER places the top-left pixel of the foreground at pixel (8*x+xoffset, 8*y+yoffset) of the background tile array; the part of the foreground '
+    'outside the background is dropped; "each background UDG over which a foreground UDG is superimposed" is each background UDG whose 8x8 cell '
+    'contains at least one foreground pixel; with rmode 0/1 background pixels of such a UDG that are not under the foreground keep their value; '
+    'mask bytes, scale, crop, tindex and alpha of the background frame are not changed; "no mask" means mask type 0 or no mask bytes (OR)',
+    'in a #OVER byte expression with pixel offsets that are not multiples of 8, $f is the byte formed by the foreground pixels lying over the '
+    'background byte, 0 where there is no foreground pixel',
+    '#PLOT coordinates are pixels of the tile array (not scaled), as in the documented example; #COPY without CROP takes over the numbers of the '
+    "old frame's cropping specification as they are; a frame created with (name*) or (img*name) is written as it is at that point",
+    'not generated, because the documentation does not define them: #PLOT outside the frame, on a frame cropped at the left/top, or with a value '
+    'other than 0/1/2; a #COPY portion that leaves the old frame; #OVER of a frame on itself; negative xoffset/yoffset; a foreground with mask bytes '
+    'on some UDGs only; $f in attr when foreground UDGs with different attributes meet one background UDG; $m for a background byte not wholly '
+    'under masked foreground pixels, or with a mask-type-0 foreground that carries mask bytes; expression values outside 0..255; unparenthesised '
+    'operator mixes; #UDGS',
 ]
 MIN_NONTRIVIAL = {'quick': 2500, 'thorough': 60000}
 
@@ -67,6 +91,8 @@ GENERIC = ENCODERS[0]
 
 FINDING_FLASH = 'C15-flash-rect-crop-origin-beyond-size'
 FINDING_FRAMES = 'C15-frames-bare-spec-inherits-offsets'
+FINDING_OVER_M = 'C15-over-m-placeholder-255-in-padding-udgs'
+FRAMES_SHARDS = 4
 
 # ------------------------------------------------------------------ plan
 
@@ -81,6 +107,8 @@ def plan(tier, seed):
         specs.append({'part': 'sna2img', 'shard': i, 'count': 700 if quick else 15000, 'timeout': 600 if quick else 4000, 'budget_s': 45 if quick else 1000})
     for i in range(2):
         specs.append({'part': 'html', 'shard': i, 'count': 60 if quick else 2000, 'timeout': 600 if quick else 4000, 'budget_s': 45 if quick else 1000})
+    for i in range(FRAMES_SHARDS):
+        specs.append({'part': 'frames', 'shard': i, 'count': 45 if quick else 1500, 'timeout': 600 if quick else 4000, 'budget_s': 45 if quick else 1000})
     return specs
 
 # ------------------------------------------------------------------ monitor
@@ -855,6 +883,400 @@ def run_html(shard, spec):
         replay = {'part': 'html', 'shard': spec['shard'], 'i': i}
         eval_html_case(shard, mon, case, ('html', spec['shard'], i), replay, sample=' | '.join(case['macros'])[:300] if i < 1 else None)
 
+# ------------------------------------------------------------------ part: frames (#COPY, #OVER, #PLOT, rendered by #FRAMES)
+
+_frame_monitors = {'installed': False}
+
+def install_frame_monitors(shard):
+    """Counting wrappers on the real frame-manipulation code (what was it asked to do, and how often)."""
+    if _frame_monitors['installed']:
+        return
+    from skoolkit import graphics
+    orig_over = graphics.overlay_udgs
+    def overlay_udgs(bg, fg, x, y, mask=0, rattr=None, rbyte=None):
+        try:
+            shard.inc('observed:overlay_udgs calls')
+            shard.hist('observed:over_rmode', (1 if rattr else 0) | (2 if rbyte else 0))
+            shard.hist('observed:over pixel shift (x,y not multiple of 8)', '%d,%d' % (int(x & 7 != 0), int(y & 7 != 0)))
+            has = any(u.mask is not None for row in fg for u in row)
+            shard.hist('observed:over foreground (mask type,mask bytes)', '%d,%s' % (mask, 'yes' if has else 'no'))
+            bw, bh, fw, fh = 8 * len(bg[0]), 8 * len(bg), 8 * len(fg[0]), 8 * len(fg)
+            if x >= bw or y >= bh or x + fw <= 0 or y + fh <= 0:
+                where = 'no overlap'
+            elif x < 0 or y < 0 or x + fw > bw or y + fh > bh:
+                where = 'clipped' + (' left/top' if x < 0 or y < 0 else '') + (' right/bottom' if x + fw > bw or y + fh > bh else '')
+            else:
+                where = 'inside'
+            shard.hist('observed:over placement', where)
+        except Exception:
+            shard.inc('observed:wrapper bookkeeping failed')
+        return orig_over(bg, fg, x, y, mask, rattr, rbyte)
+    graphics.overlay_udgs = overlay_udgs
+    orig_copy = graphics.Frame.copy
+    def copy(self_, *a, **kw):
+        shard.inc('observed:Frame.copy calls')
+        return orig_copy(self_, *a, **kw)
+    graphics.Frame.copy = copy
+    orig_plot = graphics.Frame.plot
+    def plot(self_, x, y, value):
+        shard.hist('observed:plot value', value)
+        return orig_plot(self_, x, y, value)
+    graphics.Frame.plot = plot
+    orig_ucopy = graphics.Udg.copy
+    def ucopy(self_):
+        shard.inc('observed:Udg.copy calls')
+        return orig_ucopy(self_)
+    graphics.Udg.copy = ucopy
+    _frame_monitors['installed'] = True
+
+def _model_frame(fr, xo=0, yo=0):
+    return {'tiles': OV.render_tiles(fr), 'scale': fr['scale'], 'mask': fr['mask'], 'crop': tuple(fr['crop']), 'tindex': fr['tindex'],
+            'alpha': fr['alpha'], 'xo': xo, 'yo': yo}
+
+def _skool_text(lines, mem):
+    skool = ['; Graphics', ';', '; ' + lines[0] if lines else '; .']
+    for l in lines[1:]:
+        skool.append('; .')
+        skool.append('; ' + l)
+    first = True
+    for a in range(32768, mem.top, 16):
+        chunk = mem.mem[a:min(a + 16, mem.top)]
+        skool.append('%s%05d DEFB %s' % ('b' if first else ' ', a, ','.join(str(b) for b in chunk)))
+        first = False
+    if first:
+        skool.append('b32768 DEFB 0')
+    skool.append('')
+    return '\n'.join(skool)
+
+def _pad_mask_rule(fg, xoffset, yoffset):
+    """Mechanism of FINDING_OVER_M as an $m override for vk.ref.c15_overlay.over (classification only): with a foreground that has no
+    mask bytes and a pixel offset that is not a multiple of 8, $m is 255 instead of 0 in the extra column / row of background UDGs that the
+    shifted foreground reaches (overlay_udgs pads the shifted foreground with UDGs that carry an all-ones mask)."""
+    if FG.presence(fg) != 'none' or (xoffset % 8 == 0 and yoffset % 8 == 0):
+        return None
+    fcols, frows = FG.dims(fg)
+    def rule(col, row):
+        if (xoffset % 8 and col == fcols) or (yoffset % 8 and row == frows):
+            return 255
+        return None
+    return rule
+
+def make_frames_case(rng):
+    """One skool file: scenarios of source frames -> #COPY/#OVER/#PLOT -> #FRAMES. Returns dict(skool, ref, images, macros, events).
+    images: (file name, model, kind, info); the model of a rendered frame is what vk.ref.c15_overlay holds at that point.
+    A second set of frames ('alt') follows the mechanism of FINDING_OVER_M; it is used only to classify a mismatch."""
+    mem = MG.Mem(rng, 32768, 65000, random_fill=True)
+    anim = rng.choices((1, 0), (75, 25))[0]
+    pngalpha = rng.choice((255, 255, 0, 77))
+    rgb = None
+    if rng.random() < 0.25:
+        rgb = [[rng.randrange(256) for _ in range(3)] for _ in range(16)]
+    lines, images, events = [], [], []
+
+    def image_model(mfs, **extra):
+        d = {'frames': mfs, 'anim': anim, 'pngalpha': pngalpha, 'rgb': rgb}
+        d.update(extra)
+        return d
+
+    def undefined(e):
+        events.append(('inc', 'generator:operation outside the documented domain, not emitted (%s)' % str(e)[:70], None))
+
+    for s in range(rng.randint(2, 4)):
+        if mem.room() < 9000:
+            break
+        frames, alt, hist, version, shown = {}, {}, {}, {}, {}
+        start = len(lines)
+        nimg = [0]
+
+        def emit_render(name=None, multi=False):
+            op = FG.gen_render(rng, frames, 'o%d_%d' % (s, nimg[0]), name=name, multi=multi)
+            if op is None:
+                return
+            mfs = [_model_frame(frames[n], xo, yo) for n, xo, yo in op['frames']]
+            if len(mfs) == 1 and anim and _known_crash_shape(mfs[0]):
+                return
+            nimg[0] += 1
+            lines.append(op['text'])
+            ops = [h for n, _, _ in op['frames'] for h in hist[n]]
+            info = {'ops': sorted({h[0] for h in ops}), 'rmodes': sorted({h[1] for h in ops if h[0] == 'over'}),
+                    'plots': sorted({h[1] for h in ops if h[0] == 'plot'}), 'macros': ' | '.join(lines[start:]), 'alt': None}
+            if any(alt[n] is not None and OV.snapshot(alt[n]) != OV.snapshot(frames[n]) for n, _, _ in op['frames']):
+                info['alt'] = image_model([_model_frame(alt[n] if alt[n] is not None else frames[n], xo, yo) for n, xo, yo in op['frames']])
+            images.append((op['fname'] + '.png', image_model(mfs, macro=op['text']), 'FRAMES' if len(mfs) > 1 else 'FRAMES1', info))
+            for n, _, _ in op['frames']:
+                shown[n] = version[n]
+
+        # source frames
+        for k in range(rng.randint(2, 3)):
+            if mem.room() < 6000:
+                break
+            kinds = ('UDGARRAY', 'UDGARRAY', 'SCR') if k == 0 else ('UDG', 'UDGARRAY', 'UDGARRAY', 'SCR', 'FONT')
+            for attempt in range(3):
+                kind, text, mf, f = make_macro_case(rng, mem, kinds=kinds, max_third=1)
+                if k or (len(mf['tiles']) >= 2 and len(mf['tiles'][0]) >= 2) or mem.room() < 9000:
+                    break
+            name = 's%d_%d' % (s, k)
+            form = rng.choices(('frame', 'both', 'same'), (80, 10, 10))[0]
+            single = image_model([dict(mf)])
+            if form != 'frame' and ((anim and _known_crash_shape(mf)) or R.crop_rect(mf['tiles'], mf['scale'], mf['crop']) is None):
+                form = 'frame'
+            if form == 'frame':
+                lines.append('#%s%s(*%s)' % (kind, text, name))
+            elif form == 'both':
+                lines.append('#%s%s(i%s*%s)' % (kind, text, name, name))
+                images.append(('i%s.png' % name, single, kind, {'ops': [], 'rmodes': [], 'plots': [], 'macros': lines[-1], 'alt': None}))
+            else:
+                lines.append('#%s%s(%s*)' % (kind, text, name))
+                images.append(('%s.png' % name, single, kind, {'ops': [], 'rmodes': [], 'plots': [], 'macros': lines[-1], 'alt': None}))
+            frames[name] = OV.new_frame(mf['tiles'], mf['scale'], mf['mask'], mf['crop'], mf['tindex'], mf['alpha'])
+            alt[name] = None        # None = identical to frames[name]
+            hist[name] = []
+            version[name] = 0
+            shown[name] = None
+        if len(frames) < 2:
+            continue
+
+        involved = set()
+        ncopy = [0]
+
+        def do_copy(**kw):
+            new = 'c%d_%d' % (s, ncopy[0])
+            op = FG.gen_copy(rng, frames, new, **kw)
+            args = (op['x'], op['y'], op['width'], op['height'], op['scale'], op['mask'], op['tindex'], op['alpha'], op['crop'])
+            try:
+                fr = OV.copy(frames[op['old']], *args)
+            except OV.Undefined as e:
+                undefined(e)
+                return None
+            ncopy[0] += 1
+            lines.append(op['text'])
+            frames[new] = fr
+            alt[new] = OV.copy(alt[op['old']], *args) if alt[op['old']] is not None else None
+            hist[new] = hist[op['old']] + [('copy', 'portion' if (op['x'], op['y'], op['width'], op['height']) != (0, 0, None, None) else 'whole')]
+            version[new] = 0
+            shown[new] = None
+            involved.update((new, op['old']))
+            events.append(('inc', 'generated:#COPY', None))
+            for pname in ('scale', 'mask', 'tindex', 'alpha', 'crop'):
+                if op[pname] is not None:
+                    events.append(('hist', 'generated:#COPY parameter given', pname))
+            return new
+
+        for j in range(rng.randint(2, 6)):
+            if len(lines) - start > 60:
+                break
+            what = rng.choices(('over', 'copy', 'plot'), (55, 20, 25))[0]
+            target = None
+            if what == 'copy':
+                target = do_copy()
+            elif what == 'plot':
+                targets = FG.plot_targets(frames)
+                name = None
+                if not targets or rng.random() < 0.25:
+                    name = do_copy(for_plot=True)
+                    if name is None or name not in FG.plot_targets(frames):
+                        name = None
+                        if not targets:
+                            continue
+                for op in FG.gen_plots(rng, frames, name):
+                    try:
+                        OV.plot(frames[op['frame']], op['x'], op['y'], op['value'])
+                    except OV.Undefined as e:
+                        undefined(e)
+                        continue
+                    lines.append(op['text'])
+                    target = op['frame']
+                    if alt[target] is not None:
+                        OV.plot(alt[target], op['x'], op['y'], op['value'])
+                    hist[target] = hist[target] + [('plot', op['value'])]
+                    version[target] += 1
+                    involved.add(target)
+                    events.append(('hist', 'generated:#PLOT value', op['value']))
+            else:
+                fgname = None
+                withmasks = [n for n in sorted(frames) if FG.presence(frames[n]) == 'all']
+                if withmasks and rng.random() < 0.2:
+                    # a foreground whose mask type was changed by #COPY (its UDGs keep their mask bytes): #OVER must apply "the foreground
+                    # frame's mask", i.e. the new type (0 = no mask = OR)
+                    src = rng.choice(withmasks)
+                    fgname = do_copy(old=src, force_mask=rng.choice([m for m in (0, 1, 2) if m != frames[src]['mask']]))
+                op = FG.gen_over(rng, frames, fg=fgname)
+                if op is None:
+                    continue
+                bg, fg = frames[op['bg']], frames[op['fg']]
+                trial = OV.copy(bg)
+                before = OV.snapshot(trial)
+                args = (op['x'], op['y'], op['xoffset'], op['yoffset'], op['rmode'], op['attr'], op['byte'])
+                try:
+                    touched = OV.over(trial, fg, *args)
+                except OV.Undefined as e:
+                    undefined(e)
+                    continue
+                lines.append(op['text'])
+                # the same operation under the defect hypothesis (only ever differs for rmode 2/3 with $m)
+                abg = alt[op['bg']] if alt[op['bg']] is not None else OV.copy(bg)
+                afg = alt[op['fg']] if alt[op['fg']] is not None else fg
+                try:
+                    OV.over(abg, afg, *args, m_rule=_pad_mask_rule(afg, op['xoffset'], op['yoffset']) if op['rmode'] & 2 else None)
+                    alt[op['bg']] = abg if OV.snapshot(abg) != OV.snapshot(trial) else None
+                except OV.Undefined:
+                    alt[op['bg']] = None
+                bg['tiles'] = trial['tiles']
+                target = op['bg']
+                hist[target] = hist[target] + [('over', op['rmode'])]
+                version[target] += 1
+                involved.update((op['bg'], op['fg']))
+                events.append(('hist', 'generated:#OVER rmode', op['rmode']))
+                events.append(('hist', 'generated:#OVER offsets', 'multiples of 8' if op['xoffset'] % 8 == 0 and op['yoffset'] % 8 == 0 else
+                               ('0..7' if max(op['xoffset'], op['yoffset']) < 8 else 'beyond 7')))
+                events.append(('hist', 'generated:#OVER background UDGs touched', min(touched, 9)))
+                events.append(('hist', 'generated:#OVER changed the background', 'yes' if OV.snapshot(trial) != before else 'no'))
+                events.append(('hist', 'generated:#OVER foreground (mask type,mask bytes)', '%d,%s' % (fg['mask'], FG.presence(fg))))
+                for var, ast in (('attr $b', op['attr']), ('attr $f', op['attr']), ('byte $b', op['byte']), ('byte $f', op['byte']), ('byte $m', op['byte'])):
+                    if OV.uses(ast, var[-1]):
+                        events.append(('hist', 'generated:#OVER placeholder used', var))
+            if target is not None and rng.random() < 0.5:
+                emit_render(name=target)
+        # everything that took part in an operation is rendered in its final state (sources and foregrounds must be unchanged)
+        for name in sorted(involved):
+            if shown.get(name) != version[name]:
+                emit_render(name=name)
+        if rng.random() < 0.4:
+            emit_render(multi=True)
+    ref = ['[ImageWriter]', 'PNGEnableAnimation=%d' % anim, 'PNGAlpha=%d' % pngalpha]
+    if rgb:
+        ref.append('[Colours]')
+        for name, c in zip(R.COLOUR_NAMES, rgb):
+            ref.append('%s=%d,%d,%d' % (name, c[0], c[1], c[2]))
+    ref.append('')
+    return {'skool': _skool_text(lines, mem), 'ref': '\n'.join(ref), 'images': images, 'macros': lines, 'events': events}
+
+def judge_frames(shard, key, model, data, rec, replay, info, ctx):
+    """Verdict for one image of the frames part. Same oracle as judge(); adds the counters of the frame-manipulation monitors."""
+    rendered = render_model(model)
+    if any(r is None for r in rendered):
+        shard.skip('crop origin outside the image')
+        return
+    r0 = rendered[0]
+    shard.case(key, len(r0.colours) >= 2, None)
+    tail = ' | macros: ' + info['macros'][-1500:]
+    if rec.problems:
+        shard.violation('%sL1 contract: malformed PNG written: %s%s' % (ctx, '; '.join(rec.problems[:4]), tail), replay)
+        return
+    if rec.diff_problem:
+        shard.violation(ctx + rec.diff_problem + tail, replay)
+        return
+    problems, facts = oracle(model, rendered, data, rec)
+    shard.inc('oracle:images compared pixel by pixel')
+    shard.inc('monitor:frames_images_decided')
+    for kind in info['ops']:
+        shard.inc('monitor:%s_images_decided' % kind)
+    for m in info['rmodes']:
+        shard.hist('decided:images after #OVER with rmode', m)
+    for v in info['plots']:
+        shard.hist('decided:images after #PLOT with value', v)
+    if not info['ops']:
+        shard.inc('monitor:unmodified_source_images_decided')
+    if facts.get('flash_checked'):
+        shard.inc('oracle:flash second frames compared')
+    if facts.get('multi') and not problems:
+        shard.inc('oracle:multi-frame images compared')
+    if r0.has_trans:
+        shard.inc('oracle:images with mask transparency')
+    if problems:
+        finding = None
+        if info.get('alt') is not None:
+            # does the mechanism of the known defect (and nothing else) explain the file?
+            alt_rendered = render_model(info['alt'])
+            if all(r is not None for r in alt_rendered) and not oracle(info['alt'], alt_rendered, data, rec)[0]:
+                finding = FINDING_OVER_M
+        shard.violation(ctx + problems[0] + tail, replay, finding=finding)
+
+def eval_frames_case(shard, mon, case, keybase, replay, sample=None):
+    shutil.rmtree('c15frames', ignore_errors=True)
+    os.makedirs('c15frames')
+    harness.write_file('c15frames/game.skool', case['skool'])
+    harness.write_file('c15frames/game.ref', case['ref'])
+    mon.take()
+    res = harness.run_tool('skool2html', ['-q', '-d', 'c15frames/out', 'c15frames/game.skool'])
+    recs = mon.take()
+    shard.inc('frames:skool2html runs')
+    if sample is not None:
+        shard.sample(sample)
+    if not res.ok:
+        shard.case(keybase, True, None)
+        crashed = [r for r in recs if r.exc]
+        what = 'image writer crashed: %s' % crashed[-1].exc if crashed else res.describe()
+        shard.violation('skool2html failed on generated frame macros (#COPY/#OVER/#PLOT/#FRAMES): %s\n%s\nmacros: %s' % (
+            what, (res.tb or '')[-600:], ' | '.join(case['macros'])[:1500]), replay)
+        return
+    for kind, name, key in case['events']:
+        if kind == 'inc':
+            shard.inc(name)
+        else:
+            shard.hist(name, key)
+    by_data = {}
+    for r in recs:
+        by_data.setdefault(r.data, r)
+    for fname, model, kind, info in case['images']:
+        shard.hist('frames part: image kind', kind)
+        hits = _find('c15frames/out', fname)
+        key = keybase + (fname,)
+        if len(hits) != 1:
+            shard.case(key, True, None)
+            shard.violation('skool2html: %d files named %s were written for %s' % (len(hits), fname, model.get('macro', kind)), dict(replay, image=fname))
+            continue
+        data = harness.read_file(hits[0])
+        rec = by_data.get(data)
+        if rec is None:
+            shard.case(key, True, None)
+            shard.violation('skool2html: %s does not contain the bytes PngWriter wrote' % fname, dict(replay, image=fname))
+            continue
+        judge_frames(shard, key, model, data, rec, dict(replay, image=fname), info, 'skool2html %s -> %s: ' % (model.get('macro', '#' + kind), fname))
+
+def run_frames(shard, spec):
+    mon = Monitor(shard)
+    mon.install()
+    install_frame_monitors(shard)
+    for i in range(spec['count']):
+        if shard.out_of_time():
+            shard.inc('budget:frames shard stopped early')
+            break
+        rng = shard.rng('frames', spec['shard'], i)
+        try:
+            case = make_frames_case(rng)
+        except MemoryError:
+            shard.skip('generator: address space exhausted')
+            continue
+        replay = {'part': 'frames', 'shard': spec['shard'], 'i': i}
+        eval_frames_case(shard, mon, case, ('frames', spec['shard'], i), replay, sample=' | '.join(case['macros'])[:400] if i < 1 and spec['shard'] == 0 else None)
+
+def finalize_frames(agg, tier):
+    c = agg['counters']
+    h = agg['hists']
+    out = []
+    for k in ('frames:skool2html runs', 'monitor:frames_images_decided', 'monitor:over_images_decided', 'monitor:copy_images_decided',
+              'monitor:plot_images_decided', 'observed:overlay_udgs calls', 'observed:Frame.copy calls', 'observed:Udg.copy calls'):
+        if not c.get(k):
+            out.append('frames part: monitor counter "%s" is zero' % k)
+    for m in range(4):
+        if not h.get('observed:over_rmode', {}).get(str(m)) or not h.get('decided:images after #OVER with rmode', {}).get(str(m)):
+            out.append('frames part: no image was decided after an #OVER with rmode %d' % m)
+    for v in range(3):
+        if not h.get('observed:plot value', {}).get(str(v)) or not h.get('decided:images after #PLOT with value', {}).get(str(v)):
+            out.append('frames part: no image was decided after a #PLOT with value %d' % v)
+    shifts = h.get('observed:over pixel shift (x,y not multiple of 8)', {})
+    for k in ('0,0', '1,0', '0,1', '1,1'):
+        if not shifts.get(k):
+            out.append('frames part: overlay_udgs was never called with pixel shift class %s' % k)
+    fgs = h.get('observed:over foreground (mask type,mask bytes)', {})
+    for k in ('0,no', '1,yes', '2,yes'):
+        if not fgs.get(k):
+            out.append('frames part: no #OVER with a foreground of (mask type,mask bytes) = %s was observed' % k)
+    if not h.get('generated:#OVER changed the background', {}).get('yes'):
+        out.append('frames part: no #OVER changed its background frame')
+    return out
+
 # ------------------------------------------------------------------ entry points
 
 def run(shard, spec):
@@ -863,6 +1285,8 @@ def run(shard, spec):
         run_api(shard, spec)
     elif part == 'sna2img':
         run_sna2img(shard, spec)
+    elif part == 'frames':
+        run_frames(shard, spec)
     else:
         run_html(shard, spec)
 
@@ -875,6 +1299,11 @@ def replay(shard, d):
         rng = shard.rng('sna2img', d['shard'], d['i'])
         case = make_sna2img_case(rng)
         eval_sna2img_case(shard, mon, case, ('replay',), d)
+    elif d['part'] == 'frames':
+        install_frame_monitors(shard)
+        rng = shard.rng('frames', d['shard'], d['i'])
+        case = make_frames_case(rng)
+        eval_frames_case(shard, mon, case, ('replay',), d)
     else:
         rng = shard.rng('html', d['shard'], d['i'])
         case = make_html_case(rng)
@@ -901,4 +1330,5 @@ def finalize(agg, tier):
                     out.append('encoder slot (bit depth %d, full size %d, masked %d) was never reached' % (bd, full, masked))
     if not agg['hists'].get('sna2img mode'):
         out.append('no sna2img invocation was observed')
+    out.extend(finalize_frames(agg, tier))
     return out
